@@ -21,7 +21,6 @@ import (
 	"os"
 	"runtime"
 	"strings"
-	"sync"
 	"unsafe"
 )
 
@@ -137,7 +136,8 @@ var (
 	prefixMsk [MaxSteps]uint32
 	nprefix   int32
 	horizon   int32 = MaxSteps - 8
-	wg        sync.WaitGroup
+	live      int32         // controlled goroutines not yet finished or abandoned (norace accounting)
+	execDone  = make(chan struct{}, 1)
 
 	// outcome of the execution
 	exDeadlock   bool
@@ -440,9 +440,24 @@ var never = make(chan struct{})
 
 func parkForever() {
 	leakedInc()
-	wg.Done()
+	threadGone()
 	<-never
 }
+
+// threadGone accounts for a finished (or abandoned) controlled goroutine; the last one releases the
+// explorer. The counter is invisible to the race detector; the single channel send only creates an
+// edge from the last thread to the explorer, which waits for nothing else.
+func threadGone() {
+	if decLive() == 0 {
+		execDone <- struct{}{}
+	}
+}
+
+//go:norace
+func decLive() int32 { live--; return live }
+
+//go:norace
+func incLive() { live++ }
 
 //go:norace
 func leakedInc() { leaked++ }
@@ -550,7 +565,7 @@ func Go(encl string, fn func()) {
 		return
 	}
 
-	if !active || aborting {
+	if !running() {
 		go fn()
 		return
 	}
@@ -566,7 +581,7 @@ func spawn(name string, fn func()) int32 {
 		return -1
 	}
 
-	wg.Add(1)
+	incLive()
 
 	go threadMain(tid, fn)
 
@@ -596,7 +611,7 @@ func threadMain(tid int32, fn func()) {
 		}
 
 		threadExit(tid)
-		wg.Done()
+		threadGone()
 	}()
 
 	fn()
@@ -703,20 +718,20 @@ func Run(pfx []int8, msk []uint32, seen *keySet, prune bool, body func()) *Resul
 	}
 
 	hbSeen = seen
-	active = true
+	setActive(true)
 
 	tid := allocThread("main")
 	threads[tid].state = tsRunning
 	current = tid
 
-	wg.Add(1)
+	incLive()
 	storeBaton(tid)
 
 	go threadMain(tid, body)
 
-	wg.Wait()
+	<-execDone
 
-	active = false
+	setActive(false)
 	r := &Result{
 		Deadlock: exDeadlock, Horizon: exHorizon, Nondet: exNondet, NondetStep: int(exNondetStep),
 		Panic: exPanic, PanicStack: exPanicStack, PanicTid: int(exPanicTid), Unsupp: exUnsupp, PrunedAt: int(prunedAt),
@@ -735,6 +750,10 @@ func Run(pfx []int8, msk []uint32, seen *keySet, prune bool, body func()) *Resul
 	return r
 }
 
+//go:norace
+func setActive(v bool) { active = v }
+
+//go:norace
 func resetExec() {
 	active = false
 	aborting = false
@@ -744,6 +763,7 @@ func resetExec() {
 	nres = 0
 	nsteps = 0
 	nprefix = 0
+	live = 0
 	prunedAt = -1
 	costP, costE = 0, 0
 	exDeadlock, exHorizon, exNondet, exPanic, exPanicStack, exUnsupp = false, false, false, nil, "", ""
